@@ -53,4 +53,25 @@ CHECKS = {
              "thorough": {"checks": 150000, "shards": 16, "timeout": 1500}},
         ],
     },
+    "C18": {
+        "level": "exploration",
+        "level_text": ("Round-trip and framing oracle over generated records: decode(encode(x)) == x and the decoder consumes exactly "
+                       "the bytes written, for single records, sequences of 1-30 mixed records and the manifest header followed by "
+                       "records, with every length/number field biased to its boundaries (path 1/1023/1024, 16-bit ids and error "
+                       "texts 0/255/256/65535, bitmaps up to 1 MiB, 0 and 2^n-1 numerics); plus the converse direction "
+                       "(decodable bytes re-encode to an equal value) and JSON envelopes. The input space is unbounded, so this is "
+                       "sampled exploration with boundary-directed generators."),
+        "level_note": "Trusted: reflect.DeepEqual as equality, rapid's generators; 32-bit lengths exercised to 1 MiB, not 4 GiB.",
+        "technique": "property-based testing (rapid): round-trip + exact-consumption oracle over boundary-biased record generators and record sequences",
+        "rule": ("rapid-generated control records (all 9 types) with boundary-biased fields, sequences of 1-30 records, manifest headers "
+                 "with 0-200 items followed by records, random byte strings that decode (converse). Non-trivial = a field at a boundary "
+                 "value or a sequence with >= 3 record types (records), empty/large manifest or trailing records (header), bytes that "
+                 "decode (converse); distinct by shape fingerprint."),
+        "assumptions": ["equality is reflect.DeepEqual with nil/empty slice normalised"],
+        "units": [
+            {"name": "transfer", "pkg": T, "run": "^TestVerifC18",
+             "quick": {"checks": 3000, "shards": 1, "timeout": 600},
+             "thorough": {"checks": 40000, "shards": 16, "timeout": 3000}},
+        ],
+    },
 }
